@@ -25,6 +25,9 @@ import (
 	"time"
 
 	"github.com/bokysan/socketace/v2/internal/socketace"
+	"github.com/bokysan/socketace/v2/internal/streams/dns/commands"
+	"github.com/bokysan/socketace/v2/internal/streams/dns/util"
+	"github.com/bokysan/socketace/v2/internal/util/enc"
 )
 
 func cpuTimeMs() int64 {
@@ -390,7 +393,7 @@ func init() {
 		return append(out, TW("iso"), TBool(iso))
 	})
 
-	// c15 <carrier> <stall: connect | halfline | between | tlshello | garbage | none> <n>
+	// c15 <carrier> <stall: connect | halfline | between | tlshello | garbage | stranger (dns) | none> <n>
 	//   a peer connects to the server endpoint and stalls at the given point; n well-behaved logical connections (each over its own
 	//   physical session) must then complete within 3 s
 	//  -> per client ok | <failure>
@@ -538,6 +541,11 @@ func init() {
 				}
 				defer app.Close()
 				defer tc.Close()
+				if stall == "stranger" && carrier == "dns" {
+					// while this client's session is open, another peer ON THE SAME HOST (another source port) sends close requests and
+					// data packets full of garbage under every low session number: none of it is this peer's to send
+					hostileDnsQueries(srv)
+				}
 				s, ok := echoOnce(app, tc, []byte(fmt.Sprintf("client-%d", i)), 3*time.Second)
 				ch <- r{s, ok}
 			}(i)
@@ -906,4 +914,30 @@ func c14ReadTimeout() []Tok {
 	}
 	g1 := settleGoroutines()
 	return []Tok{TW("g"), TIn(g0), TIn(g1), TIn(g1), TW("fd"), TI(0), TI(0), TW("cpu"), TI(cpu), TW("ok"), TIn(okc), TW("ended"), TIn(ended)}
+}
+
+// hostileDnsQueries: from a fresh UDP socket, close requests and garbage data packets for the session numbers 0..7 (answers are not awaited)
+func hostileDnsQueries(srv string) {
+	c, err := net.Dial("udp", srv)
+	if err != nil {
+		return
+	}
+	defer c.Close()
+	ser := clientSerializer(util.QueryTypeNull, enc.Base32Encoding, enc.Base32Encoding)
+	yes := true
+	for id := uint16(0); id < 8; id++ {
+		for _, req := range []commands.Request{
+			&commands.PacketRequest{UserId: id, LastAckedSeqNo: 65535, Packet: &util.Packet{SeqNo: 0, Data: []byte{0, 1, 2, 3, 255, 254, 9, 9, 9, 9}}},
+			&commands.PacketRequest{UserId: id, LastAckedSeqNo: 65535, Packet: &util.Packet{SeqNo: 1, Data: []byte("GARBAGE GARBAGE\r\n\r\n")}},
+			&commands.SetOptionsRequest{UserId: id, Closed: &yes},
+		} {
+			if m, err := ser.EncodeDnsRequest(req); err == nil {
+				m.Id = uint16(4000 + id)
+				if b, err := m.Pack(); err == nil {
+					c.Write(b)
+				}
+			}
+		}
+	}
+	time.Sleep(150 * time.Millisecond)
 }
